@@ -15,15 +15,20 @@ More == { I(0), I(-1), MkDy(1, -1), Str(<<>>), Str(<<97>>), [t |-> "bytes", v |-
           [t |-> "concat", l |-> [t |-> "list", v |-> <<I(1)>>], r |-> [t |-> "list", v |-> <<I(2)>>]], [t |-> "range", l |-> I(2), r |-> I(0)] }
 Reps == IF REPS = "one" THEN One ELSE One \cup More
 Modes == {"absent", "decline", "accept"}
-VARIABLES op, l, r, mode
-vars == <<op, l, r, mode>>
+\* via: "direct" = the instruction runs in the store the host configured; "clone" = a host that compiles once and serves each request
+\* from a working copy (SimpleGarnishData's clone_* family; BasicGarnishData has no such operation): the copy must carry the
+\* host's callbacks, so the protocol V_C08 demands is the same.
+Vias(m) == IF m = "absent" THEN {"direct"} ELSE {"direct", "clone"}
+VARIABLES op, l, r, mode, via
+vars == <<op, l, r, mode, via>>
 Init == /\ mode \in Modes
+        /\ via \in Vias(mode)
         /\ \/ op \in BinaryDeferring /\ l \in Reps /\ r \in Reps
            \/ op \in UnaryDeferring /\ l \in Reps /\ r = U
 Next == UNCHANGED vars
 Spec == Init /\ [][Next]_vars
 HostValue == I(4242)
 
-Emit == PrintT(<<"REPLAY", ToJson(IF op \in UnaryDeferring THEN [ins |-> op, l |-> l, unary |-> TRUE, mode |-> mode]
-                                  ELSE [ins |-> op, l |-> l, r |-> r, unary |-> FALSE, mode |-> mode])>>)
+Emit == PrintT(<<"REPLAY", ToJson(IF op \in UnaryDeferring THEN [ins |-> op, l |-> l, unary |-> TRUE, mode |-> mode, via |-> via]
+                                  ELSE [ins |-> op, l |-> l, r |-> r, unary |-> FALSE, mode |-> mode, via |-> via])>>)
 ==============================================================================
